@@ -284,6 +284,9 @@ pub struct Plan {
     /// return a spurious `Pending` when a lot has happened since the runtime was last returned to
     #[serde(default)]
     pub coop: bool,
+    /// now and then a connection task is polled although nothing has woken it (see `Sim::spurious`)
+    #[serde(default)]
+    pub spurious: bool,
 }
 impl Plan {
     pub fn base() -> Plan {
@@ -304,6 +307,7 @@ impl Plan {
             extra_acceptors: [0, 0],
             horizon_ms: 0,
             coop: false,
+            spurious: false,
         }
     }
 }
@@ -871,6 +875,7 @@ pub struct DuoRun {
     pub probe_from: usize,
     pub trace: Option<Vec<String>>,
     pub budget_exhausted: u64,
+    pub spurious_polls: u64,
 }
 
 fn src_mode(x: u8) -> SrcMode {
@@ -911,6 +916,7 @@ async fn run_async(plan: Plan, sched: Sched, record: bool) -> DuoRun {
     link.lock().unwrap().backpressure_in_flush = plan.link.bp_flush;
     let world = Rc::new(RefCell::new(LinkWorld::new(link.clone())));
     let mut sim = Sim::new(&sched, plan.weights, record, world.clone(), seq.clone());
+    sim.spurious = plan.spurious;
     let led: Led = Rc::new(RefCell::new(Ledger::default()));
     {
         let mut l = led.borrow_mut();
@@ -1394,7 +1400,7 @@ async fn run_async(plan: Plan, sched: Sched, record: bool) -> DuoRun {
     drop(keep);
     let fired = world.borrow().fired_at.clone();
     let t0 = link.lock().unwrap().t0;
-    DuoRun { plan, led, link, end, steps: sim.steps, digest: sim.digest.0 ^ seq.now(), decisions: sim.decisions.take().unwrap_or_default(), unfinished: sim.unfinished(), fired, sim_ms: sim.t_last.duration_since(t0).as_millis() as u64, probe_from, trace: sim.trace.take(), budget_exhausted: sim.budget_exhausted }
+    DuoRun { plan, led, link, end, steps: sim.steps, digest: sim.digest.0 ^ seq.now(), decisions: sim.decisions.take().unwrap_or_default(), unfinished: sim.unfinished(), fired, sim_ms: sim.t_last.duration_since(t0).as_millis() as u64, probe_from, trace: sim.trace.take(), budget_exhausted: sim.budget_exhausted, spurious_polls: sim.spurious_polls }
 }
 
 pub fn outcome_base(r: &DuoRun) -> Outcome {
@@ -1405,6 +1411,9 @@ pub fn outcome_base(r: &DuoRun) -> Outcome {
     }
     for (k, v) in &r.led.borrow().probes {
         o.probe(k, *v);
+    }
+    if r.spurious_polls > 0 {
+        o.probe("fault:spurious-poll", r.spurious_polls);
     }
     if r.plan.coop {
         o.probe("fault:coop-constrained-run", 1);
